@@ -12,6 +12,9 @@ def standard_program_calls(camp, rng, prog, con, kw, nvalues=3, ninputs=3, claus
                            sizeof=False, offsets=True, maxlen=6):
     """values -> build (-> parse -> rebuild); inputs (random, canonical, mutated) -> parse (-> build -> parse -> build)"""
     inputs = [gen.random_input(rng, maxlen) for _ in range(ninputs)]
+    # boundary patterns: the most negative value of a signed field of any width and alignment, all ones, sign bit alone
+    n = rng.randint(1, maxlen)
+    inputs += [bytes([0x80] * n), bytes([0x80] + [0] * (n - 1)), bytes([rng.choice([0x10, 0x08, 0x04, 0x90, 0x84, 0xc0])] + [0] * (n - 1))]
     for _ in range(nvalues):
         try:
             v = gen.build_value(rng, prog, kw)
